@@ -523,6 +523,8 @@ def _run(report):
     report.extra["inlined_closures"] = sorted(set().union(*[x.inlined for x in execs]))
     report.extra["callee_contracts_used"] = sorted(set().union(*[x.used_contracts for x in execs]))
     report.extra["library_models_used"] = sorted(set().union(*[x.used_models for x in execs]))
+    from ..contracts import audit
+    audit.run(report)
     report.trust("CPython 3.12 (subset of DESIGN 3.A)", "z3 5.1 / cvc5 1.4", "SymPy 1.14 expression constructors (value homomorphisms), "
                  "isinstance facts read from the real classes", "sympy.physics.units dimension system")
     report.assume(*[f"{k}: {v}" for k, v in FE.ASSUMED.items()])
